@@ -363,6 +363,9 @@ class Interp:
 
     def store_subscript(self, base, idx, v, st, ms):
         if isinstance(base, Arr):
+            mask = idx if isinstance(idx, Arr) else (idx[0] if isinstance(idx, tuple) and len(idx) == 1 and isinstance(idx[0], Arr) else None)
+            if mask is not None and mask.dtype.name == "bool":
+                return self.mask_assign(base, mask, v, st, ms)
             dst = self.index_array(base, idx, st, ms, for_store=True)
             self.emit_slice_assign(dst, v, st, ms)
             return
@@ -380,6 +383,33 @@ class Interp:
             self.trace.append(Op("ExtStore", obj=base, index=idx, value=v, where=self.where(st, ms)))
             return
         raise Unsupported("subscript store on %r at %s" % (base, self.where(st, ms)))
+
+    def mask_assign(self, base, mask, v, st, ms):
+        """a[boolean array] = scalar: cell-wise selection between the new value and the old content"""
+        from .extlib import arr_valfn
+        if not is_scalar(v) or tuple(map(repr, mask.shape)) != tuple(map(repr, base.shape)) or not base.is_full():
+            raise Unsupported("boolean-mask assignment other than full_array[mask_of_same_shape] = scalar at %s" % self.where(st, ms))
+        self.trace.append(Op("MaskAssign", dst=base, mask=mask, src=v, where=self.where(st, ms), stack=tuple(self.call_stack), node=st))
+        al = base.alloc
+        al.cver = getattr(al, "cver", 0) + 1
+        if not hasattr(al, "content_hist"):
+            al.content_hist = []
+        al.content_hist.append((al.cver, None, None))
+        old = arr_valfn(base) if al.valfn is not None else None
+        mf = arr_valfn(mask)
+        if old is None or mf is None:
+            al.valfn = None
+            al.valfn_lost = True
+            return
+        val = to_pw(v)
+
+        def newfn(ix, old=old, mf=mf, val=val):
+            m = to_pw(mf(ix))           # indicator (1 where the mask holds, 0 elsewhere)
+            ms_ = simplify_scalar(m)
+            if is_num(ms_):
+                return val if ms_ == 1 else to_pw(old(ix))      # decided cell: the other side is not evaluated (it may be log(0))
+            return m * val + (pconst(1) - m) * to_pw(old(ix))
+        al.valfn = newfn
 
     def emit_slice_assign(self, dst, src, st, ms, aug=None):
         """dst[...] = src (numpy basic-slice assignment, broadcasting)"""
